@@ -14,6 +14,7 @@ EXPLANATION = (
     "(R-C01-start) a new subscription's DataRequest starts at next_native_offset() of its own filter; (R-C01-cache) a new filter is added to the topic->filters cache for already cached topics, and DataLog::matches routes through protocol::matches; "
     "(R-C01-unsubscribe) UnsubAckReason::Success is pushed only after the connection left the filter's subscriber set, its own subscription set, its tracker and the filter's parked waiters; "
     "(R-C01-match) at the publish-side call sites of protocol::matches(topic, filter) the iterated map's key is passed in the position of its role. "
+    "(R-C01-takeover) the stored session is looked up after the takeover saved it and is not consumed by a refused CONNECT (shared with R-C08-restore); R-C01-cache also demands that only protocol::matches()'s result decides whether a cached topic learns a new filter. "
     "NOT decided: acceptance order = delivery order, once-per-subscription, payload/topic integrity, granted QoS, retention proviso, cursor arithmetic (value/history dependent).")
 ASSUMPTIONS = ["rustc MIR construction is correct", "the scheduler's ready queue is eventually polled (run_inner loop, not analysed for fairness)"]
 TECHNIQUE = "static analysis: who-may-call, flag-sensitive must-pass over the MIR CFG, drop-elaborated-MIR conservation, exhaustive abstract interpretation of a finite-enum decision function, provenance"
